@@ -100,9 +100,7 @@ func (i *Int) Init64(v int64, m *compatiblemod.Mod) *Int {
 	i.M = m
 	i.BO = kyber.BigEndian
 	if v < 0 {
-		i.V = *compatible.FromNat(i.M.Nat())
-		negated := compatible.NewInt(-v)
-		i.V = *compatible.NewInt(0).Sub(&i.V, negated, i.M)
+		i.SetInt64(v)
 	} else {
 		i.V = *compatible.NewInt(0).SetUint(uint(v))
 		i.V = *compatible.NewInt(0).Mod(&i.V, m)
@@ -190,7 +188,13 @@ func (i *Int) One() kyber.Scalar {
 // The modulus must already be initialized.
 func (i *Int) SetInt64(v int64) kyber.Scalar {
 	if v < 0 {
-		panic("negative value")
+		// M - (|v| mod M), reduced; the magnitude is taken in uint64 so
+		// that math.MinInt64 is handled as well
+		mag := compatible.NewInt(0).Mod(compatible.NewUint(uint64(-(v+1))+1), i.M)
+		i.V = *compatible.FromNat(i.M.Nat())
+		i.V = *compatible.NewInt(0).Sub(&i.V, mag, i.M)
+		i.V = *compatible.NewInt(0).Mod(&i.V, i.M)
+		return i
 	}
 	i.V = *compatible.NewInt(0).Mod(compatible.NewInt(v), i.M)
 
